@@ -40,6 +40,11 @@ RULES = {
                  "-s 10.1.1.1/32 -d 10.1.2.1/32 -p tcp -m tcp --dport 8000 -j ACCEPT"),
     "udp1024y": ("-j ACCEPT -d 10.1.2.0/30 -p udp --dport 1024:6500",
                  "-d 10.1.2.0/30 -p udp -m udp --dport 1024:6500 -j ACCEPT"),
+    # addresses that differ in their last digit / in the prefix length only
+    "src3":     ("-j DROP -s 10.1.1.3", "-s 10.1.1.3/32 -j DROP"),
+    "src22":    ("-j DROP -s 10.1.1.22", "-s 10.1.1.22/32 -j DROP"),
+    "net22":    ("-j DROP -s 10.2.0.0/22", "-s 10.2.0.0/22 -j DROP"),
+    "net23":    ("-j DROP -s 10.2.0.0/23", "-s 10.2.0.0/23 -j DROP"),
     "tcp80net": ("-j ACCEPT -s 10.1.1.0/31 -d 10.1.2.1 -p tcp --dport 80",
                  "-s 10.1.1.0/31 -d 10.1.2.1/32 -p tcp -m tcp --dport 80 -j ACCEPT"),
     "tcp80h0":  ("-j ACCEPT -s 10.1.1.0 -d 10.1.2.1 -p tcp --dport 80",
@@ -69,7 +74,7 @@ RULES = {
     "drop":     ("-j DROP", "-j DROP"),
     "rawdrop":  ("-j DROP -s 10.1.2.2", "-s 10.1.2.2/32 -j DROP"),
 }
-ACT = {"tcp8000": "ACCEPT", "udp1024y": "ACCEPT", "tcp8080": "ACCEPT", "tcp80net": "ACCEPT", "tcp80h0": "ACCEPT", "sport": "ACCEPT", "lowports": "ACCEPT",
+ACT = {"src3": "DROP", "src22": "DROP", "net22": "DROP", "net23": "DROP", "tcp8000": "ACCEPT", "udp1024y": "ACCEPT", "tcp8080": "ACCEPT", "tcp80net": "ACCEPT", "tcp80h0": "ACCEPT", "sport": "ACCEPT", "lowports": "ACCEPT",
        "udp1024x": "ACCEPT", "vrrp": "ACCEPT", "proto113": "ACCEPT", "icmp8": "ACCEPT", "icmp0": "ACCEPT",
        "state1": "ACCEPT", "possrc": "DROP", "negold": "DROP", "markhex": "MARK", "markmask": "MARK",
        "loginfo": "LOG", "ifin": "ACCEPT", "ifout": "ACCEPT", "frag": "ACCEPT", "logtcp": "LOG", "logip": "LOG",
